@@ -1,6 +1,7 @@
 import CedarVerif.Cedar.SymCompile
 import CedarVerif.Cedar.Eval
 import CedarVerif.Lemmas.SetRepr
+import CedarVerif.Lemmas.Beq
 /-
 Helper lemmas for C18's compiler fragment (`Cedar.SymC`): the factory's folding on literal arguments and the
 induction `compile_rel` (compile on the literal environment vs. `evaluate`).
@@ -76,22 +77,68 @@ def PrimOk : Prim → Prop
   | .int i => inI64 i = true
   | _ => True
 
-/-- value `v` ↦ `some (lit v)`; error ↦ `none` (of some type) -/
-def Rel (r : Result Value) (t : Term) : Prop :=
+/-- a context attribute vs. its field term: required ↦ literal, optional present ↦ `some lit`, absent ↦ `none ty` -/
+def FieldOK (ov : Option Value) (ft : Term) : Prop :=
+  (∃ p, PrimOk p ∧ ov = some (.prim p) ∧ (ft = .prim (litPrim p) ∨ ft = .some (.prim (litPrim p)))) ∨
+  (ov = none ∧ ∃ ty, ft = .none ty)
+
+/-- the context term `t` represents the (FLAT) context `ctx`, attribute by attribute, and has no other attribute -/
+def CtxOK (ctx : List (String × Value)) (t : Term) : Prop :=
+  t.isRecord = true ∧ (∀ a ft, recFind? t a = some ft → FieldOK (lookupKV ctx a) ft) ∧
+  (∀ a, recFind? t a = none → lookupKV ctx a = none)
+
+/-- primitive value `v` ↦ `some (lit v)`; the context record ↦ `some ctxT`; error ↦ `none` (of some type) -/
+def Rel (ctx : List (String × Value)) (ctxT : Term) (r : Result Value) (t : Term) : Prop :=
   match r with
-  | .ok v => ∃ p, v = .prim p ∧ PrimOk p ∧ t = .some (.prim (litPrim p))
+  | .ok v => (∃ p, v = .prim p ∧ PrimOk p ∧ t = .some (.prim (litPrim p))) ∨
+             (v = .record ctx ∧ t = .some ctxT ∧ CtxOK ctx ctxT)
   | .error _ => ∃ ty, t = .none ty
 
-theorem Rel.cases {r : Result Value} {t : Term} (h : Rel r t) :
-    (∃ p, r = .ok (.prim p) ∧ PrimOk p ∧ t = .some (.prim (litPrim p))) ∨ (∃ err ty, r = .error err ∧ t = .none ty) := by
-  cases r with
-  | ok v => obtain ⟨p, rfl, hp, ht⟩ := h; exact Or.inl ⟨p, rfl, hp, ht⟩
-  | error e => obtain ⟨ty, ht⟩ := h; exact Or.inr ⟨e, ty, rfl, ht⟩
+section
+variable {ctx : List (String × Value)} {ctxT : Term}
 
-theorem Rel.typeOf {r : Result Value} {t : Term} (h : Rel r t) : ∃ ty, t.typeOf = .option ty := by
-  rcases h.cases with ⟨p, _, _, rfl⟩ | ⟨_, ty, _, rfl⟩
+theorem Rel.cases {r : Result Value} {t : Term} (h : Rel ctx ctxT r t) :
+    (∃ p, r = .ok (.prim p) ∧ PrimOk p ∧ t = .some (.prim (litPrim p))) ∨ (∃ err ty, r = .error err ∧ t = .none ty) ∨
+    (r = .ok (.record ctx) ∧ t = .some ctxT ∧ CtxOK ctx ctxT) := by
+  cases r with
+  | ok v =>
+    rcases h with ⟨p, rfl, hp, ht⟩ | ⟨rfl, ht, hc⟩
+    · exact Or.inl ⟨p, rfl, hp, ht⟩
+    · exact Or.inr (Or.inr ⟨rfl, ht, hc⟩)
+  | error e => obtain ⟨ty, ht⟩ := h; exact Or.inr (Or.inl ⟨e, ty, rfl, ht⟩)
+
+theorem Rel.typeOf {r : Result Value} {t : Term} (h : Rel ctx ctxT r t) : ∃ ty, t.typeOf = .option ty := by
+  rcases h.cases with ⟨p, _, _, rfl⟩ | ⟨_, ty, _, rfl⟩ | ⟨_, rfl, _⟩
   · exact ⟨_, rfl⟩
   · exact ⟨_, rfl⟩
+  · exact ⟨_, rfl⟩
+
+theorem Rel.prim {p : Prim} (hp : PrimOk p) : Rel ctx ctxT (.ok (.prim p)) (.some (.prim (litPrim p))) :=
+  Or.inl ⟨p, rfl, hp, rfl⟩
+
+end
+
+/-! ### record terms -/
+
+theorem isRecord_typeOf : ∀ {t : Term}, t.isRecord = true → t.typeOf.isRecordType = true
+  | .recNil, _ => rfl
+  | .recCons _ _ _, _ => rfl
+  | .prim _, h | .none _, h | .some _, h | .app1 _ _ _, h | .app2 _ _ _ _, h | .app3 _ _ _ _ _, h => by
+    simp [Term.isRecord] at h
+
+theorem tyFind_typeOf : ∀ {t : Term}, t.isRecord = true → ∀ a, tyFind? t.typeOf a = (recFind? t a).map Term.typeOf
+  | .recNil, _, a => by simp [Term.typeOf, tyFind?, recFind?]
+  | .recCons b ft rest, h, a => by
+    have ih := tyFind_typeOf (t := rest) (by simpa [Term.isRecord] using h) a
+    simp only [Term.typeOf, tyFind?, recFind?]
+    split
+    · rfl
+    · exact ih
+  | .prim _, h, _ | .none _, h, _ | .some _, h, _ | .app1 _ _ _, h, _ | .app2 _ _ _ _, h, _ | .app3 _ _ _ _ _, h, _ => by
+    simp [Term.isRecord] at h
+
+theorem isRecord_not_opt {t : Term} (h : t.isRecord = true) : (∀ x, t ≠ .some x) ∧ (∀ ty, t ≠ .none ty) ∧ (∀ p, t ≠ .prim p) := by
+  cases t <;> simp [Term.isRecord] at h ⊢
 
 theorem litPrim_typeOf_bool {p : Prim} (h : (litPrim p).typeOf = .bool) : ∃ b, p = .bool b := by
   cases p <;> simp [litPrim, TermPrim.typeOf] at h
@@ -178,16 +225,19 @@ theorem compileOr_false {r2 : CResult} {r : Term} (h : compileOr (.some tFalse) 
       exact ⟨rfl, hty'⟩
     · simp at h
 
+section
+variable {ctx : List (String × Value)} {ctxT : Term}
+
 /-- `!` / unary `-` on a folded operand -/
 theorem compileApp1_spec {op : UnaryOp} {p : Prim} (hp : PrimOk p) {r0 : Term}
-    (h : compileApp1 op (.prim (litPrim p)) = .ok r0) : Rel (applyUnary op (.prim p)) r0 := by
+    (h : compileApp1 op (.prim (litPrim p)) = .ok r0) : Rel ctx ctxT (applyUnary op (.prim p)) r0 := by
   cases op with
   | isEmpty => cases p <;> simp [compileApp1, litPrim, Term.typeOf, TermPrim.typeOf] at h
   | not =>
     cases p <;> simp [compileApp1, litPrim, Term.typeOf, TermPrim.typeOf] at h
     subst h
     rename_i b
-    exact ⟨.bool (!b), by simp [applyUnary, Value.asBool], trivial, rfl⟩
+    exact Or.inl ⟨.bool (!b), by simp [applyUnary, Value.asBool], trivial, rfl⟩
   | neg =>
     cases p <;> simp [compileApp1, litPrim, Term.typeOf, TermPrim.typeOf] at h
     subst h
@@ -199,7 +249,7 @@ theorem compileApp1_spec {op : UnaryOp} {p : Prim} (hp : PrimOk p) {r0 : Term}
     · simp only [Bool.not_false, fite_true]
       exact ⟨_, rfl⟩
     · simp only [Bool.not_true, fite_false]
-      exact ⟨.int (-a), rfl, hov, by simp [someOf, litPrim, BitVec.ofInt_neg]⟩
+      exact Or.inl ⟨.int (-a), rfl, hov, by simp [someOf, litPrim, BitVec.ofInt_neg]⟩
 
 theorem compileApp2_eq (l1 l2 : TermPrim) :
     compileApp2 .eq (.prim l1) (.prim l2) = .ok (.some (.prim (.bool (l1 == l2)))) := by
@@ -215,26 +265,26 @@ theorem compileApp2_eq (l1 l2 : TermPrim) :
 /-- `== < <= + - *` on two folded operands -/
 theorem compileApp2_spec (es : Entities) {op : BinaryOp} {p1 p2 : Prim} (h1 : PrimOk p1) (h2 : PrimOk p2) {r0 : Term}
     (h : compileApp2 op (.prim (litPrim p1)) (.prim (litPrim p2)) = .ok r0) :
-    Rel (applyBinary es op (.prim p1) (.prim p2)) r0 := by
+    Rel ctx ctxT (applyBinary es op (.prim p1) (.prim p2)) r0 := by
   cases op with
   | eq =>
     rw [compileApp2_eq] at h
     simp only [Except.ok.injEq] at h
     subst h
-    refine ⟨.bool (p1 == p2), by simp [applyBinary, beq_prim], trivial, ?_⟩
+    refine Or.inl ⟨.bool (p1 == p2), by simp [applyBinary, beq_prim], trivial, ?_⟩
     rw [litPrim_beq h1 h2]; rfl
   | less =>
     cases p1 <;> cases p2 <;> simp [compileApp2, litPrim, Term.typeOf, TermPrim.typeOf] at h
     subst h
     rename_i a b
-    refine ⟨.bool (decide (a < b)), by simp [applyBinary, applyCmp], trivial, ?_⟩
+    refine Or.inl ⟨.bool (decide (a < b)), by simp [applyBinary, applyCmp], trivial, ?_⟩
     simp [someOf, bvslt, bvcmp, toInt_ofInt_of_inI64 (show inI64 a = true from h1),
       toInt_ofInt_of_inI64 (show inI64 b = true from h2), litPrim]
   | lessEq =>
     cases p1 <;> cases p2 <;> simp [compileApp2, litPrim, Term.typeOf, TermPrim.typeOf] at h
     subst h
     rename_i a b
-    refine ⟨.bool (decide (a ≤ b)), by simp [applyBinary, applyCmp], trivial, ?_⟩
+    refine Or.inl ⟨.bool (decide (a ≤ b)), by simp [applyBinary, applyCmp], trivial, ?_⟩
     simp [someOf, bvsle, bvcmp, toInt_ofInt_of_inI64 (show inI64 a = true from h1),
       toInt_ofInt_of_inI64 (show inI64 b = true from h2), litPrim]
   | add =>
@@ -249,7 +299,7 @@ theorem compileApp2_spec (es : Entities) {op : BinaryOp} {p1 p2 : Prim} (h1 : Pr
     · simp only [Bool.not_false, fite_true]
       exact ⟨_, rfl⟩
     · simp only [Bool.not_true, fite_false]
-      exact ⟨.int (a + b), rfl, hov, by simp [someOf, litPrim, BitVec.ofInt_add]⟩
+      exact Or.inl ⟨.int (a + b), rfl, hov, by simp [someOf, litPrim, BitVec.ofInt_add]⟩
   | sub =>
     cases p1 <;> cases p2 <;> simp [compileApp2, litPrim, Term.typeOf, TermPrim.typeOf] at h
     subst h
@@ -262,7 +312,7 @@ theorem compileApp2_spec (es : Entities) {op : BinaryOp} {p1 p2 : Prim} (h1 : Pr
     · simp only [Bool.not_false, fite_true]
       exact ⟨_, rfl⟩
     · simp only [Bool.not_true, fite_false]
-      exact ⟨.int (a - b), rfl, hov, by simp [someOf, litPrim, ofInt_sub64]⟩
+      exact Or.inl ⟨.int (a - b), rfl, hov, by simp [someOf, litPrim, ofInt_sub64]⟩
   | mul =>
     cases p1 <;> cases p2 <;> simp [compileApp2, litPrim, Term.typeOf, TermPrim.typeOf] at h
     subst h
@@ -275,20 +325,64 @@ theorem compileApp2_spec (es : Entities) {op : BinaryOp} {p1 p2 : Prim} (h1 : Pr
     · simp only [Bool.not_false, fite_true]
       exact ⟨_, rfl⟩
     · simp only [Bool.not_true, fite_false]
-      exact ⟨.int (a * b), rfl, hov, by simp [someOf, litPrim, BitVec.ofInt_mul]⟩
+      exact Or.inl ⟨.int (a * b), rfl, hov, by simp [someOf, litPrim, BitVec.ofInt_mul]⟩
   | _ => cases p1 <;> cases p2 <;> simp [compileApp2, litPrim, Term.typeOf, TermPrim.typeOf] at h
+
+
+/-! ### record-typed operands -/
+
+theorem compileApp1_record {op : UnaryOp} {t : Term} (h : t.isRecord = true) : compileApp1 op t = .error .typeError := by
+  have := isRecord_typeOf h
+  unfold compileApp1
+  split <;> simp_all [TermType.isRecordType]
+
+theorem reducibleEq_record {ty1 ty2 : TermType} (h : ty1.isRecordType = true ∨ ty2.isRecordType = true) {b : Bool}
+    (h0 : reducibleEq ty1 ty2 = .ok b) : ty1 = ty2 := by
+  unfold reducibleEq at h0
+  by_cases he : ty1 = ty2
+  · exact he
+  · have : (ty1.isPrimType && ty2.isPrimType) = false := by
+      rcases h with h | h
+      · cases ty1 <;> simp_all [TermType.isPrimType, TermType.isRecordType]
+      · cases ty2 <;> simp_all [TermType.isPrimType, TermType.isRecordType]
+    simp [he, this] at h0
+
+theorem compileApp2_record {op : BinaryOp} {t1 t2 r0 : Term}
+    (h : t1.typeOf.isRecordType = true ∨ t2.typeOf.isRecordType = true)
+    (h0 : compileApp2 op t1 t2 = .ok r0) : op = .eq ∧ t1.typeOf = t2.typeOf := by
+  unfold compileApp2 at h0
+  split at h0
+  · refine ⟨rfl, ?_⟩
+    cases hr : reducibleEq t1.typeOf t2.typeOf with
+    | error e => simp [hr] at h0
+    | ok b => exact reducibleEq_record h hr
+  all_goals first
+    | (simp at h0; done)
+    | (rcases h with h | h <;> simp_all [TermType.isRecordType])
+
+theorem compileApp2_eq_self {t : Term} (h : t.isRecord = true) : compileApp2 .eq t t = .ok (.some tTrue) := by
+  cases t <;> simp [Term.isRecord] at h <;>
+    simp [compileApp2, reducibleEq, feq, eqSimplify, someOf]
+
+theorem compileCond_record {t : Term} (h : t.isRecord = true) (r2 r3 : CResult) :
+    compileIf (.some t) r2 r3 = .error .typeError ∧ compileAnd (.some t) r2 = .error .typeError ∧
+    compileOr (.some t) r2 = .error .typeError := by
+  cases t <;> simp [Term.isRecord] at h <;>
+    simp [compileIf, compileAnd, compileOr, Term.typeOf]
+
+end
 
 /-! ### the induction -/
 
 section
-variable (req : Request) (es : Entities) (senv : SlotEnv) (etys : List (EntityType × Option (List String)))
+variable (req : Request) (es : Entities) (senv : SlotEnv) (etys : List (EntityType × Option (List String))) (ctxT : Term)
 
 theorem unary_rel {op : UnaryOp} {a : Expr}
-    (ih : ∀ t, compile (litEnv req etys) a = .ok t → Rel (evaluate req es senv a) t)
-    {t : Term} (hc : compile (litEnv req etys) (.unaryApp op a) = .ok t) :
-    Rel (evaluate req es senv (.unaryApp op a)) t := by
+    (ih : ∀ t, compile (litEnv2 req etys ctxT) a = .ok t → Rel req.context ctxT (evaluate req es senv a) t)
+    {t : Term} (hc : compile (litEnv2 req etys ctxT) (.unaryApp op a) = .ok t) :
+    Rel req.context ctxT (evaluate req es senv (.unaryApp op a)) t := by
   simp only [compile] at hc
-  cases h1 : compile (litEnv req etys) a with
+  cases h1 : compile (litEnv2 req etys ctxT) a with
   | error e => simp [h1] at hc
   | ok t1 =>
     simp only [h1] at hc
@@ -297,9 +391,12 @@ theorem unary_rel {op : UnaryOp} {a : Expr}
     | ok r0 =>
       simp only [h0, Except.ok.injEq] at hc
       subst hc
-      rcases (ih t1 h1).cases with ⟨p, hev, hp, rfl⟩ | ⟨err, ty, hev, rfl⟩
+      rcases (ih t1 h1).cases with ⟨p, hev, hp, rfl⟩ | ⟨err, ty, hev, rfl⟩ | ⟨hev, rfl, hck⟩
+      rotate_right
+      · rw [optionGet_some, compileApp1_record hck.1] at h0
+        simp at h0
       · rw [optionGet_some] at h0
-        have hr := compileApp1_spec hp h0
+        have hr := compileApp1_spec (ctx := req.context) (ctxT := ctxT) hp h0
         obtain ⟨ty, hty⟩ := hr.typeOf
         rw [ifSome_some_opt hty]
         simpa [evaluate, hev] using hr
@@ -309,16 +406,16 @@ theorem unary_rel {op : UnaryOp} {a : Expr}
         exact ⟨ty', rfl⟩
 
 theorem binary_rel {op : BinaryOp} {a b : Expr}
-    (iha : ∀ t, compile (litEnv req etys) a = .ok t → Rel (evaluate req es senv a) t)
-    (ihb : ∀ t, compile (litEnv req etys) b = .ok t → Rel (evaluate req es senv b) t)
-    {t : Term} (hc : compile (litEnv req etys) (.binaryApp op a b) = .ok t) :
-    Rel (evaluate req es senv (.binaryApp op a b)) t := by
+    (iha : ∀ t, compile (litEnv2 req etys ctxT) a = .ok t → Rel req.context ctxT (evaluate req es senv a) t)
+    (ihb : ∀ t, compile (litEnv2 req etys ctxT) b = .ok t → Rel req.context ctxT (evaluate req es senv b) t)
+    {t : Term} (hc : compile (litEnv2 req etys ctxT) (.binaryApp op a b) = .ok t) :
+    Rel req.context ctxT (evaluate req es senv (.binaryApp op a b)) t := by
   simp only [compile] at hc
-  cases h1 : compile (litEnv req etys) a with
+  cases h1 : compile (litEnv2 req etys ctxT) a with
   | error e => simp [h1] at hc
   | ok t1 =>
     simp only [h1] at hc
-    cases h2 : compile (litEnv req etys) b with
+    cases h2 : compile (litEnv2 req etys ctxT) b with
     | error e => simp [h2] at hc
     | ok t2 =>
       simp only [h2] at hc
@@ -327,10 +424,35 @@ theorem binary_rel {op : BinaryOp} {a b : Expr}
       | ok r0 =>
         simp only [h0, Except.ok.injEq] at hc
         subst hc
-        rcases (iha t1 h1).cases with ⟨p1, hev1, hp1, rfl⟩ | ⟨err, ty, hev1, rfl⟩
-        · rcases (ihb t2 h2).cases with ⟨p2, hev2, hp2, rfl⟩ | ⟨err, ty, hev2, rfl⟩
+        rcases (iha t1 h1).cases with ⟨p1, hev1, hp1, rfl⟩ | ⟨err, ty, hev1, rfl⟩ | ⟨hev1, rfl, hck⟩
+        rotate_right
+        · rcases (ihb t2 h2).cases with ⟨p2, hev2, hp2, rfl⟩ | ⟨err, ty, hev2, rfl⟩ | ⟨hev2, rfl, _⟩
           · rw [optionGet_some, optionGet_some] at h0
-            have hr := compileApp2_spec es hp1 hp2 h0
+            have := (compileApp2_record (Or.inl (isRecord_typeOf hck.1)) h0).2
+            have hh := isRecord_typeOf hck.1
+            rw [this] at hh
+            cases p2 <;> simp [litPrim, Term.typeOf, TermPrim.typeOf, TermType.isRecordType] at hh
+          · obtain ⟨ty', h'⟩ := ifSome_none ty r0
+            rw [h', ifSome_some_opt (ty := ty') rfl]
+            simp only [evaluate, hev1, hev2]
+            exact ⟨ty', rfl⟩
+          · rw [optionGet_some] at h0
+            obtain ⟨rfl, _⟩ := compileApp2_record (Or.inl (isRecord_typeOf hck.1)) h0
+            rw [compileApp2_eq_self hck.1] at h0
+            simp only [Except.ok.injEq] at h0
+            subst h0
+            rw [ifSome_some_opt (ty := .bool) rfl, ifSome_some_opt (ty := .bool) rfl]
+            simp only [evaluate, hev1, hev2, applyBinary, Value.beq_rfl]
+            exact Rel.prim (p := .bool true) trivial
+        · rcases (ihb t2 h2).cases with ⟨p2, hev2, hp2, rfl⟩ | ⟨err, ty, hev2, rfl⟩ | ⟨hev2, rfl, hck⟩
+          rotate_right
+          · rw [optionGet_some, optionGet_some] at h0
+            have := (compileApp2_record (Or.inr (isRecord_typeOf hck.1)) h0).2
+            have hh := isRecord_typeOf hck.1
+            rw [← this] at hh
+            cases p1 <;> simp [litPrim, Term.typeOf, TermPrim.typeOf, TermType.isRecordType] at hh
+          · rw [optionGet_some, optionGet_some] at h0
+            have hr := compileApp2_spec (ctx := req.context) (ctxT := ctxT) es hp1 hp2 h0
             obtain ⟨ty, hty⟩ := hr.typeOf
             rw [ifSome_some_opt hty, ifSome_some_opt hty]
             simpa [evaluate, hev1, hev2] using hr
@@ -343,56 +465,185 @@ theorem binary_rel {op : BinaryOp} {a b : Expr}
           simp only [evaluate, hev1]
           exact ⟨ty', rfl⟩
 
+
+theorem compileAttr_prim (p : Prim) (attr : String) :
+    (∃ e, compileGetAttr (.prim (litPrim p)) attr = .error e) ∧ (∃ e, compileHasAttr (.prim (litPrim p)) attr = .error e) := by
+  cases p <;> simp [compileGetAttr, compileHasAttr, compileAttrsOf, litPrim, Term.typeOf, TermPrim.typeOf]
+
+theorem getAttr_rel {a : Expr} {attr : String}
+    (ih : ∀ t, compile (litEnv2 req etys ctxT) a = .ok t → Rel req.context ctxT (evaluate req es senv a) t)
+    {t : Term} (hc : compile (litEnv2 req etys ctxT) (.getAttr a attr) = .ok t) :
+    Rel req.context ctxT (evaluate req es senv (.getAttr a attr)) t := by
+  simp only [compile] at hc
+  cases h1 : compile (litEnv2 req etys ctxT) a with
+  | error e => simp [h1] at hc
+  | ok t1 =>
+    simp only [h1] at hc
+    cases h0 : compileGetAttr (optionGet t1) attr with
+    | error e => simp [h0] at hc
+    | ok r0 =>
+      simp only [h0, Except.ok.injEq] at hc
+      subst hc
+      rcases (ih t1 h1).cases with ⟨p, hev, hp, rfl⟩ | ⟨err, ty, hev, rfl⟩ | ⟨hev, rfl, hck⟩
+      · obtain ⟨e, he⟩ := (compileAttr_prim p attr).1
+        rw [optionGet_some, he] at h0
+        simp at h0
+      · obtain ⟨ty', h'⟩ := ifSome_none ty r0
+        rw [h']
+        simp only [evaluate, hev]
+        exact ⟨ty', rfl⟩
+      · obtain ⟨hrec, hfld, hno⟩ := hck
+        have hrt := isRecord_typeOf hrec
+        have hattrs : compileAttrsOf ctxT = .ok ctxT := by
+          unfold compileAttrsOf
+          split <;> simp_all [TermType.isRecordType]
+        rw [optionGet_some] at h0
+        simp only [compileGetAttr, hattrs, hrt, if_true, tyFind_typeOf hrec] at h0
+        cases hf : recFind? ctxT attr with
+        | none => simp [hf] at h0
+        | some ft =>
+          simp only [hf, Option.map_some] at h0
+          have hget : recordGet ctxT attr = ft := by simp [recordGet, hrec, hf]
+          rw [hget] at h0
+          rcases hfld attr ft hf with ⟨p, hp, hlk, rfl | rfl⟩ | ⟨hlk, ty, rfl⟩
+          · have : r0 = .some (.prim (litPrim p)) := by
+              cases p <;> simpa [litPrim, Term.typeOf, TermPrim.typeOf, TermType.isOptionType, someOf, eq_comm] using h0
+            subst this
+            rw [ifSome_some_opt (ty := (litPrim p).typeOf) rfl]
+            simp only [evaluate, hev, hlk]
+            exact Rel.prim hp
+          · have : r0 = .some (.prim (litPrim p)) := by
+              simpa [Term.typeOf, TermType.isOptionType, eq_comm] using h0
+            subst this
+            rw [ifSome_some_opt (ty := (litPrim p).typeOf) rfl]
+            simp only [evaluate, hev, hlk]
+            exact Rel.prim hp
+          · have : r0 = .none ty := by
+              simpa [Term.typeOf, TermType.isOptionType, eq_comm] using h0
+            subst this
+            rw [ifSome_some_opt (ty := ty) rfl]
+            simp only [evaluate, hev, hlk]
+            exact ⟨ty, rfl⟩
+
+theorem hasAttr_rel {a : Expr} {attr : String}
+    (ih : ∀ t, compile (litEnv2 req etys ctxT) a = .ok t → Rel req.context ctxT (evaluate req es senv a) t)
+    {t : Term} (hc : compile (litEnv2 req etys ctxT) (.hasAttr a attr) = .ok t) :
+    Rel req.context ctxT (evaluate req es senv (.hasAttr a attr)) t := by
+  simp only [compile] at hc
+  cases h1 : compile (litEnv2 req etys ctxT) a with
+  | error e => simp [h1] at hc
+  | ok t1 =>
+    simp only [h1] at hc
+    cases h0 : compileHasAttr (optionGet t1) attr with
+    | error e => simp [h0] at hc
+    | ok r0 =>
+      simp only [h0, Except.ok.injEq] at hc
+      subst hc
+      rcases (ih t1 h1).cases with ⟨p, hev, hp, rfl⟩ | ⟨err, ty, hev, rfl⟩ | ⟨hev, rfl, hck⟩
+      · obtain ⟨e, he⟩ := (compileAttr_prim p attr).2
+        rw [optionGet_some, he] at h0
+        simp at h0
+      · obtain ⟨ty', h'⟩ := ifSome_none ty r0
+        rw [h']
+        simp only [evaluate, hev]
+        exact ⟨ty', rfl⟩
+      · obtain ⟨hrec, hfld, hno⟩ := hck
+        have hrt := isRecord_typeOf hrec
+        have hattrs : compileAttrsOf ctxT = .ok ctxT := by
+          unfold compileAttrsOf
+          split <;> simp_all [TermType.isRecordType]
+        rw [optionGet_some] at h0
+        simp only [compileHasAttr, hattrs, hrt, if_true, tyFind_typeOf hrec] at h0
+        cases hf : recFind? ctxT attr with
+        | none =>
+          simp only [hf, Option.map_none, Except.ok.injEq] at h0
+          subst h0
+          rw [ifSome_some_opt (ty := .bool) rfl]
+          simp only [evaluate, hev, hno attr hf]
+          exact Rel.prim (p := .bool false) trivial
+        | some ft =>
+          simp only [hf, Option.map_some] at h0
+          have hget : recordGet ctxT attr = ft := by simp [recordGet, hrec, hf]
+          rw [hget] at h0
+          rcases hfld attr ft hf with ⟨p, hp, hlk, rfl | rfl⟩ | ⟨hlk, ty, rfl⟩
+          · have : r0 = .some tTrue := by
+              cases p <;> simpa [litPrim, Term.typeOf, TermPrim.typeOf, TermType.isOptionType, someOf, eq_comm] using h0
+            subst this
+            rw [ifSome_some_opt (ty := .bool) rfl]
+            simp only [evaluate, hev, hlk]
+            exact Rel.prim (p := .bool true) trivial
+          · have : r0 = .some tTrue := by
+              simpa [Term.typeOf, TermType.isOptionType, someOf, isSome, isNone, fnot, eq_comm] using h0
+            subst this
+            rw [ifSome_some_opt (ty := .bool) rfl]
+            simp only [evaluate, hev, hlk]
+            exact Rel.prim (p := .bool true) trivial
+          · have : r0 = .some tFalse := by
+              simpa [Term.typeOf, TermType.isOptionType, someOf, isSome, isNone, fnot, eq_comm] using h0
+            subst this
+            rw [ifSome_some_opt (ty := .bool) rfl]
+            simp only [evaluate, hev, hlk]
+            exact Rel.prim (p := .bool false) trivial
+
 /-- compile on the literal environment of `req` vs. `evaluate`, on the fragment -/
-theorem compile_rel {e : Expr} (hf : SFrag e) :
-    ∀ t, compile (litEnv req etys) e = .ok t → Rel (evaluate req es senv e) t := by
+theorem compile_rel2 (hctx : ctxT.typeOf.isRecordType = true → CtxOK req.context ctxT) {e : Expr} (hf : SFrag2 e) :
+    ∀ t, compile (litEnv2 req etys ctxT) e = .ok t → Rel req.context ctxT (evaluate req es senv e) t := by
   induction hf with
   | litBool b =>
     intro t hc
     simp only [compile, compilePrim, someOf, Except.ok.injEq] at hc
     subst hc
-    exact ⟨.bool b, by simp [evaluate], trivial, rfl⟩
+    exact Rel.prim (p := .bool b) trivial
   | litInt i h =>
     intro t hc
     simp only [compile, compilePrim, someOf, Except.ok.injEq] at hc
     subst hc
-    exact ⟨.int i, by simp [evaluate], h, rfl⟩
+    exact Rel.prim (p := .int i) h
   | litString s =>
     intro t hc
     simp only [compile, compilePrim, someOf, Except.ok.injEq] at hc
     subst hc
-    exact ⟨.string s, by simp [evaluate], trivial, rfl⟩
+    exact Rel.prim (p := .string s) trivial
   | litEntity uid =>
     intro t hc
     simp only [compile, compilePrim, someOf] at hc
     split at hc
     · simp only [Except.ok.injEq] at hc
       subst hc
-      exact ⟨.entityUID uid, by simp [evaluate], trivial, rfl⟩
+      exact Rel.prim (p := .entityUID uid) trivial
     · simp at hc
   | principal =>
     intro t hc
-    simp [compile, compileVar, someOf, Term.typeOf, TermPrim.typeOf, TermType.isEntityType, litEnv] at hc
+    simp [compile, compileVar, someOf, Term.typeOf, TermPrim.typeOf, TermType.isEntityType, litEnv, litEnv2] at hc
     subst hc
-    exact ⟨.entityUID req.principal, by simp [evaluate], trivial, rfl⟩
+    exact Rel.prim (p := .entityUID req.principal) trivial
   | action =>
     intro t hc
-    simp [compile, compileVar, someOf, Term.typeOf, TermPrim.typeOf, TermType.isEntityType, litEnv] at hc
+    simp [compile, compileVar, someOf, Term.typeOf, TermPrim.typeOf, TermType.isEntityType, litEnv, litEnv2] at hc
     subst hc
-    exact ⟨.entityUID req.action, by simp [evaluate], trivial, rfl⟩
+    exact Rel.prim (p := .entityUID req.action) trivial
   | resource =>
     intro t hc
-    simp [compile, compileVar, someOf, Term.typeOf, TermPrim.typeOf, TermType.isEntityType, litEnv] at hc
+    simp [compile, compileVar, someOf, Term.typeOf, TermPrim.typeOf, TermType.isEntityType, litEnv, litEnv2] at hc
     subst hc
-    exact ⟨.entityUID req.resource, by simp [evaluate], trivial, rfl⟩
+    exact Rel.prim (p := .entityUID req.resource) trivial
+  | context =>
+    intro t hc
+    simp only [compile, compileVar, litEnv2, someOf] at hc
+    by_cases hr : ctxT.typeOf.isRecordType = true
+    · simp only [hr, if_true, Except.ok.injEq] at hc
+      subst hc
+      simp only [evaluate]
+      exact Or.inr ⟨rfl, rfl, hctx hr⟩
+    · simp [hr] at hc
   | @ite c x y _ _ _ ihc ihx ihy =>
     intro t hc
     simp only [compile] at hc
-    cases h1 : compile (litEnv req etys) c with
+    cases h1 : compile (litEnv2 req etys ctxT) c with
     | error e => simp [h1] at hc
     | ok t1 =>
       simp only [h1] at hc
-      rcases (ihc t1 h1).cases with ⟨p, hev, hp, rfl⟩ | ⟨err, ty, hev, rfl⟩
+      rcases (ihc t1 h1).cases with ⟨p, hev, hp, rfl⟩ | ⟨err, ty, hev, rfl⟩ | ⟨hev, rfl, hck⟩
       · by_cases hb : ∃ b, p = .bool b
         · obtain ⟨b, rfl⟩ := hb
           cases b
@@ -405,14 +656,16 @@ theorem compile_rel {e : Expr} (hf : SFrag e) :
       · obtain ⟨ty', rfl⟩ := compileIf_none hc
         simp only [evaluate, hev]
         exact ⟨ty', rfl⟩
+      · rw [(compileCond_record hck.1 _ _).1] at hc
+        simp at hc
   | @and a b _ _ iha ihb =>
     intro t hc
     simp only [compile] at hc
-    cases h1 : compile (litEnv req etys) a with
+    cases h1 : compile (litEnv2 req etys ctxT) a with
     | error e => simp [h1] at hc
     | ok t1 =>
       simp only [h1] at hc
-      rcases (iha t1 h1).cases with ⟨p, hev, hp, rfl⟩ | ⟨err, ty, hev, rfl⟩
+      rcases (iha t1 h1).cases with ⟨p, hev, hp, rfl⟩ | ⟨err, ty, hev, rfl⟩ | ⟨hev, rfl, hck⟩
       · by_cases hb : ∃ b, p = .bool b
         · obtain ⟨b, rfl⟩ := hb
           cases b
@@ -420,65 +673,75 @@ theorem compile_rel {e : Expr} (hf : SFrag e) :
             subst hc
             have hev' : evaluate req es senv (.and a b) = .ok (.prim (.bool false)) := by
               simp [evaluate, hev, Value.asBool]
-            show Rel _ _
             rw [hev']
-            exact ⟨.bool false, rfl, trivial, rfl⟩
+            exact Rel.prim (p := .bool false) trivial
           · obtain ⟨h2, hty⟩ := compileAnd_true (r := t) (by simpa [litPrim] using hc)
-            rcases (ihb t h2).cases with ⟨q, hevb, hq, rfl⟩ | ⟨err, ty, hevb, rfl⟩
+            rcases (ihb t h2).cases with ⟨q, hevb, hq, rfl⟩ | ⟨err, ty, hevb, rfl⟩ | ⟨hevb, rfl, hck⟩
             · obtain ⟨r, rfl⟩ := litPrim_typeOf_bool (p := q) (by simpa [Term.typeOf] using hty)
               have hev' : evaluate req es senv (.and a b) = .ok (.prim (.bool r)) := by
                 simp [evaluate, hev, hevb, Value.asBool]
-              show Rel _ _
               rw [hev']
-              exact ⟨.bool r, rfl, trivial, rfl⟩
+              exact Rel.prim (p := .bool r) trivial
             · simp only [evaluate, hev, hevb, Value.asBool]
               exact ⟨ty, rfl⟩
+            · have hh := isRecord_typeOf hck.1
+              simp only [Term.typeOf, TermType.option.injEq] at hty
+              rw [hty] at hh
+              simp [TermType.isRecordType] at hh
         · rw [compileAnd_nonbool (fun b h => hb ⟨b, h⟩)] at hc
           simp at hc
       · obtain ⟨ty', rfl⟩ := compileAnd_none hc
         simp only [evaluate, hev]
         exact ⟨ty', rfl⟩
+      · rw [(compileCond_record hck.1 (compile (litEnv2 req etys ctxT) b) (.error .typeError)).2.1] at hc
+        simp at hc
   | @or a b _ _ iha ihb =>
     intro t hc
     simp only [compile] at hc
-    cases h1 : compile (litEnv req etys) a with
+    cases h1 : compile (litEnv2 req etys ctxT) a with
     | error e => simp [h1] at hc
     | ok t1 =>
       simp only [h1] at hc
-      rcases (iha t1 h1).cases with ⟨p, hev, hp, rfl⟩ | ⟨err, ty, hev, rfl⟩
+      rcases (iha t1 h1).cases with ⟨p, hev, hp, rfl⟩ | ⟨err, ty, hev, rfl⟩ | ⟨hev, rfl, hck⟩
       · by_cases hb : ∃ b, p = .bool b
         · obtain ⟨b, rfl⟩ := hb
           cases b
           · obtain ⟨h2, hty⟩ := compileOr_false (r := t) (by simpa [litPrim] using hc)
-            rcases (ihb t h2).cases with ⟨q, hevb, hq, rfl⟩ | ⟨err, ty, hevb, rfl⟩
+            rcases (ihb t h2).cases with ⟨q, hevb, hq, rfl⟩ | ⟨err, ty, hevb, rfl⟩ | ⟨hevb, rfl, hck⟩
             · obtain ⟨r, rfl⟩ := litPrim_typeOf_bool (p := q) (by simpa [Term.typeOf] using hty)
               have hev' : evaluate req es senv (.or a b) = .ok (.prim (.bool r)) := by
                 simp [evaluate, hev, hevb, Value.asBool]
-              show Rel _ _
               rw [hev']
-              exact ⟨.bool r, rfl, trivial, rfl⟩
+              exact Rel.prim (p := .bool r) trivial
             · simp only [evaluate, hev, hevb, Value.asBool]
               exact ⟨ty, rfl⟩
+            · have hh := isRecord_typeOf hck.1
+              simp only [Term.typeOf, TermType.option.injEq] at hty
+              rw [hty] at hh
+              simp [TermType.isRecordType] at hh
           · simp only [compileOr, litPrim, Except.ok.injEq] at hc
             subst hc
             have hev' : evaluate req es senv (.or a b) = .ok (.prim (.bool true)) := by
               simp [evaluate, hev, Value.asBool]
-            show Rel _ _
             rw [hev']
-            exact ⟨.bool true, rfl, trivial, rfl⟩
+            exact Rel.prim (p := .bool true) trivial
         · rw [compileOr_nonbool (fun b h => hb ⟨b, h⟩)] at hc
           simp at hc
       · obtain ⟨ty', rfl⟩ := compileOr_none hc
         simp only [evaluate, hev]
         exact ⟨ty', rfl⟩
-  | not _ ih => exact fun t hc => unary_rel req es senv etys ih hc
-  | neg _ ih => exact fun t hc => unary_rel req es senv etys ih hc
-  | eq _ _ iha ihb => exact fun t hc => binary_rel req es senv etys iha ihb hc
-  | less _ _ iha ihb => exact fun t hc => binary_rel req es senv etys iha ihb hc
-  | lessEq _ _ iha ihb => exact fun t hc => binary_rel req es senv etys iha ihb hc
-  | add _ _ iha ihb => exact fun t hc => binary_rel req es senv etys iha ihb hc
-  | sub _ _ iha ihb => exact fun t hc => binary_rel req es senv etys iha ihb hc
-  | mul _ _ iha ihb => exact fun t hc => binary_rel req es senv etys iha ihb hc
+      · rw [(compileCond_record hck.1 (compile (litEnv2 req etys ctxT) b) (.error .typeError)).2.2] at hc
+        simp at hc
+  | not _ ih => exact fun t hc => unary_rel req es senv etys ctxT ih hc
+  | neg _ ih => exact fun t hc => unary_rel req es senv etys ctxT ih hc
+  | eq _ _ iha ihb => exact fun t hc => binary_rel req es senv etys ctxT iha ihb hc
+  | less _ _ iha ihb => exact fun t hc => binary_rel req es senv etys ctxT iha ihb hc
+  | lessEq _ _ iha ihb => exact fun t hc => binary_rel req es senv etys ctxT iha ihb hc
+  | add _ _ iha ihb => exact fun t hc => binary_rel req es senv etys ctxT iha ihb hc
+  | sub _ _ iha ihb => exact fun t hc => binary_rel req es senv etys ctxT iha ihb hc
+  | mul _ _ iha ihb => exact fun t hc => binary_rel req es senv etys ctxT iha ihb hc
+  | @getAttr a attr _ ih => exact fun t hc => getAttr_rel req es senv etys ctxT ih hc
+  | @hasAttr a attr _ ih => exact fun t hc => hasAttr_rel req es senv etys ctxT ih hc
 
 end
 
@@ -523,5 +786,68 @@ theorem inFrag_sound : ∀ (e : Expr), inFrag e = true → SFrag e
   | .is _ _, h => by simp [inFrag] at h
   | .set _, h => by simp [inFrag] at h
   | .record _, h => by simp [inFrag] at h
+
+theorem SFrag.toSFrag2 {e : Expr} (h : SFrag e) : SFrag2 e := by
+  induction h with
+  | litBool b => exact .litBool b
+  | litInt i h => exact .litInt i h
+  | litString s => exact .litString s
+  | litEntity u => exact .litEntity u
+  | principal => exact .principal
+  | action => exact .action
+  | resource => exact .resource
+  | ite _ _ _ a b c => exact .ite a b c
+  | and _ _ a b => exact .and a b
+  | or _ _ a b => exact .or a b
+  | not _ a => exact .not a
+  | neg _ a => exact .neg a
+  | eq _ _ a b => exact .eq a b
+  | less _ _ a b => exact .less a b
+  | lessEq _ _ a b => exact .lessEq a b
+  | add _ _ a b => exact .add a b
+  | sub _ _ a b => exact .sub a b
+  | mul _ _ a b => exact .mul a b
+
+theorem inFrag2_sound : ∀ (e : Expr), inFrag2 e = true → SFrag2 e
+  | .lit (.bool b), _ => .litBool b
+  | .lit (.int i), h => .litInt i (by simpa [inFrag2] using h)
+  | .lit (.string s), _ => .litString s
+  | .lit (.entityUID u), _ => .litEntity u
+  | .var .principal, _ => .principal
+  | .var .action, _ => .action
+  | .var .resource, _ => .resource
+  | .var .context, _ => .context
+  | .ite c t e, h => by
+    simp only [inFrag2, Bool.and_eq_true] at h
+    exact .ite (inFrag2_sound c h.1.1) (inFrag2_sound t h.1.2) (inFrag2_sound e h.2)
+  | .and a b, h => by
+    simp only [inFrag2, Bool.and_eq_true] at h
+    exact .and (inFrag2_sound a h.1) (inFrag2_sound b h.2)
+  | .or a b, h => by
+    simp only [inFrag2, Bool.and_eq_true] at h
+    exact .or (inFrag2_sound a h.1) (inFrag2_sound b h.2)
+  | .unaryApp .not a, h => .not (inFrag2_sound a (by simpa [inFrag2] using h))
+  | .unaryApp .neg a, h => .neg (inFrag2_sound a (by simpa [inFrag2] using h))
+  | .unaryApp .isEmpty a, h => by simp [inFrag2] at h
+  | .binaryApp op a b, h => by
+    simp only [inFrag2, Bool.and_eq_true] at h
+    have ha := inFrag2_sound a h.1.2
+    have hb := inFrag2_sound b h.2
+    cases op <;> simp at h
+    · exact .eq ha hb
+    · exact .less ha hb
+    · exact .lessEq ha hb
+    · exact .add ha hb
+    · exact .sub ha hb
+    · exact .mul ha hb
+  | .getAttr a attr, h => .getAttr attr (inFrag2_sound a (by simpa [inFrag2] using h))
+  | .hasAttr a attr, h => .hasAttr attr (inFrag2_sound a (by simpa [inFrag2] using h))
+  | .slot _, h => by simp [inFrag2] at h
+  | .unknown _ _, h => by simp [inFrag2] at h
+  | .call _ _, h => by simp [inFrag2] at h
+  | .like _ _, h => by simp [inFrag2] at h
+  | .is _ _, h => by simp [inFrag2] at h
+  | .set _, h => by simp [inFrag2] at h
+  | .record _, h => by simp [inFrag2] at h
 
 end Cedar.SymC
